@@ -54,12 +54,10 @@ def Scheme.needsParent : Scheme → Bool
   | .texCoords | .texCoordsDeprecated | .geometricNormal _ => true
   | _ => false
 
-/-- `SequentialIntegerAttributeDecoder::DecodeValues` + `DecodeIntegerValues` for an attribute of
-    an Edgebreaker mesh, every bitstream version. `kind`: 1 integer, 2 quantization, 3 normals;
-    `nc`: components of the portable values, `attComponents`: of the attribute. Returns the portable
-    values and, before 2.0, the transform parameters that precede them. -/
-def decodeIntegerValuesEb (kind numEntries nc attComponents : Nat) (md : MeshData) (pointIds : Array Nat)
-    (parent : Option Parent) : DecM (Array Int × TransformData) := do
+/-- method / transform bytes of `SequentialIntegerAttributeDecoder::DecodeValues`, the prediction
+    scheme `CreateIntPredictionScheme` yields for a mesh, and `InitPredictionScheme` (parent attribute) -/
+def selectScheme (kind : Nat) (pointIds : Array Nat) (parent : Option Parent) :
+    DecM (Scheme × PosSource × PosSourceF) := do
   let ver ← version
   let pre20 := ver < bsVersion 2 0
   let pre22 := ver < bsVersion 2 2
@@ -104,34 +102,36 @@ def decodeIntegerValuesEb (kind numEntries nc attComponents : Nat) (md : MeshDat
         if !p.intsOk then unsupp := "integer prediction scheme with the non-portable parent attribute of a stream < 2.0"
         pos := { pointIds := pointIds, map := p.map, values := p.ints }
   if unsupp != "" then failWith (.unsupported unsupp) else
-  -- DecodeIntegerValues; before 2.0 the quantization / octahedral parameters come first
-  let tr ← if pre20 then decodeTransformParams kind attComponents else pure TransformData.none
+  pure (scheme, pos, posF)
+
+/-- the symbol / raw part of `DecodeIntegerValues`: `numEntries * nc` unsigned values -/
+def readRawValues (pre20 : Bool) (numEntries nc : Nat) : DecM (List Nat) := do
   require (nc > 0)
   let numValues := numEntries * nc
   alloc "integer_decoder.portable_attribute" (4 * numValues)
   require (numEntries > 0)
   let compressed ← rdU8
-  let raw : List Nat ←
-    if compressed > 0 then lift (decodeSymbolsV pre20 numValues nc)
-    else do
-      let numBytes ← rdU8
-      if numBytes == 4 then
-        let b ← bytes (4 * numValues)
-        pure (leGroups 4 b)
-      else
-        require (numBytes * numValues ≤ 4 * numValues)
-        let rem ← remaining
-        require (numBytes * numValues ≤ rem)
-        if numBytes == 0 then pure (List.replicate numValues 0) else
-        let b ← bytes (numBytes * numValues)
-        pure (leGroups numBytes b)
-  let octa := match scheme with
-    | .deltaOcta _ | .geometricNormal _ => true
-    | _ => false
-  let vals : Array Int :=
-    if octa then (raw.map (toSigned 32)).toArray else (raw.map ofSymbol).toArray
+  if compressed > 0 then lift (decodeSymbolsV pre20 numValues nc)
+  else do
+    let numBytes ← rdU8
+    if numBytes == 4 then
+      let b ← bytes (4 * numValues)
+      pure (leGroups 4 b)
+    else
+      require (numBytes * numValues ≤ 4 * numValues)
+      let rem ← remaining
+      require (numBytes * numValues ≤ rem)
+      if numBytes == 0 then pure (List.replicate numValues 0) else
+      let b ← bytes (numBytes * numValues)
+      pure (leGroups numBytes b)
+
+/-- `DecodePredictionData` + `ComputeOriginalValues` of the selected scheme on the corrections `vals` -/
+def applyScheme (scheme : Scheme) (nc : Nat) (md : MeshData) (pos : PosSource) (posF : PosSourceF)
+    (vals : Array Int) : DecM (Array Int) := do
+  let ver ← version
+  let pre22 := ver < bsVersion 2 2
   let numCorners := 3 * md.t.numFaces
-  let out : Array Int ← match scheme with
+  match scheme with
   | .none => pure vals
   | .deltaWrap =>
     tag "pred:delta"
@@ -219,6 +219,26 @@ def decodeIntegerValuesEb (kind numEntries nc attComponents : Nat) (md : MeshDat
     tag ((if flipped > 0 then "pred:geometric_normal:flipped" else "pred:geometric_normal")
          ++ (if legacyOcta then "(legacy octahedron)" else "") ++ (if oneTriangle then "(one triangle)" else ""))
     pure r
+
+/-- `SequentialIntegerAttributeDecoder::DecodeValues` + `DecodeIntegerValues` for an attribute of
+    an Edgebreaker mesh, every bitstream version. `kind`: 1 integer, 2 quantization, 3 normals;
+    `nc`: components of the portable values, `attComponents`: of the attribute. Returns the portable
+    values and, before 2.0, the transform parameters that precede them. -/
+def decodeIntegerValuesEb (kind numEntries nc attComponents : Nat) (md : MeshData) (pointIds : Array Nat)
+    (parent : Option Parent) : DecM (Array Int × TransformData) := do
+  let ver ← version
+  let pre20 := ver < bsVersion 2 0
+  let (scheme, pos, posF) ← selectScheme kind pointIds parent
+  -- DecodeIntegerValues; before 2.0 the quantization / octahedral parameters come first
+  let tr ← if pre20 then decodeTransformParams kind attComponents else pure TransformData.none
+  let raw ← readRawValues pre20 numEntries nc
+  -- ConvertSymbolsToSignedInts unless the corrections of the scheme are positive (octahedron transforms)
+  let octa := match scheme with
+    | .deltaOcta _ | .geometricNormal _ => true
+    | _ => false
+  let vals : Array Int :=
+    if octa then (raw.map (toSigned 32)).toArray else (raw.map ofSymbol).toArray
+  let out ← applyScheme scheme nc md pos posF vals
   pure (out, tr)
 
 /-- one iteration of the corner loop of `UpdatePointToAttributeIndexMapping` -/
